@@ -341,6 +341,16 @@ def c19(ctx):
                       "one evaluation = one reply compared; non-trivial = a query on an opened document resp. a position with a hover")
 
 
+@check("C20")
+def c20(ctx):
+    ctx.assumptions += ["translation validation between two entry points: the library call made by the harness mirrors what `numscript run` is meant to compute (parser.Parse + interpreter.RunProgram on a StaticStore, json.Marshal of the result)",
+                        "Cli.tla supplies the effective input (last provider per field wins); decoy values on the losing channels make a wrong choice observable"]
+    front.c20(ctx)
+    return ctx.finish("translation_validation", "generated scripts of every outcome class (ok, run-time errors of all classes, syntax errors), amounts beyond 2^64 in balances and variables, "
+                      "x channel configurations enumerated by Cli.tla (4096: each of script / variables / balances / metadata provided by any subset of --raw, file options, --stdin); "
+                      "`run --output-format json` and `check`; non-trivial = at least 5 (field, channel) providers in one invocation")
+
+
 def replay(path):
     rp = json.load(open(path))
     prop = rp.get("property", "C00")
@@ -380,6 +390,10 @@ def replay(path):
                 return 1
             print("not reproduced")
             return 0
+        if rp["kind"] == "cli":
+            print("re-run with: ./vcheck C20 (the binary is rebuilt from the tree); recorded invocation:")
+            print(json.dumps({k: rp["case"][k] for k in ("args", "stdin", "exit", "stdout", "libst", "libjson")}, indent=1)[:3000])
+            return CHECKS["C20"](Ctx("C20", "quick", 1))
         if rp["kind"] == "generic":
             hits = front.rerun_generic(ctx, rp)
             print(json.dumps(rp.get("observed_again"), indent=1)[:3000])
